@@ -367,10 +367,14 @@ class Env:
         inv = self.nm.inv.get("ds", {})
         if name in inv:
             return inv[name]
-        # a derived name such as <input name><suffix>
-        for actual, tok in sorted(inv.items(), key=lambda kv: -len(kv[0])):
-            if actual and name.startswith(actual):
-                return tok + name[len(actual):]
+        # a derived name <input name><suffix>: only the suffixes this scenario can produce are considered, so that
+        # a hostile name which happens to be a prefix of another derived name cannot confuse the mapping
+        suffixes = {"_transformed"} | {c["suffix"] for c in self.sc.get("calls", []) if isinstance(c.get("suffix"), str)}
+        array_names = {self.nm(a.get("name")) for a in self.sc.get("arrays", {}).values() if a.get("name")}
+        for actual in sorted(array_names, key=len, reverse=True):
+            for suf in suffixes:
+                if name == actual + suf:
+                    return inv.get(actual, actual) + suf
         return name
 
     def execute(self, i, call):
